@@ -200,8 +200,12 @@ def run_sem_check(pid, tier, families, rule, assumptions, extra_cases=None, want
         for c in cases:
             for run in c["runs"]:
                 ev.case({"src": c["src"][:300], "ins": run}, True, key=vlib.shash([c["src"], run]))
-    if total_prog and total_cf * 5 > total_prog:
-        raise vlib.ToolError("generator defect: %d of %d generated programs were rejected by the compiler" % (total_cf, total_prog))
+    ev.extra["generated_programs_rejected_by_the_compiler"] = total_cf
+    if total_prog and total_cf * 50 > total_prog:
+        # the generator builds well-typed programs by construction (0 rejections on the pinned tree): more than 2 %
+        # rejections mean a generator defect or a compiler that refuses valid programs - either way this run does not
+        # decide the property
+        raise vlib.ToolError("%d of %d generated (well-typed by construction) programs were rejected by the compiler" % (total_cf, total_prog))
     missing = [k for k in required_kinds if not any(x == k or x.startswith(k + ":") for x in allkinds)]
     if missing:
         raise vlib.ToolError("constructs never generated (vacuous run): %s" % missing)
